@@ -644,9 +644,8 @@ def _patched_open(file, mode="r", buffering=-1, encoding=None, errors=None, newl
 def _mk1(name, simname):
     def f(path, *a, **k):
         w = WORLD
-        if w is not None:
-            if k.get("dir_fd") is not None:
-                raise Unsupported("%s(dir_fd=...)" % name)
+        if w is not None and k.get("dir_fd") is None and not isinstance(path, int):
+            # (fd-relative calls can only concern the real file system: nothing simulated has a descriptor)
             is_sim, p = w.route(path)
             if is_sim:
                 return getattr(w, simname)(p)
